@@ -14,7 +14,7 @@ from ..sem.rat import Decider
 from .c01 import obs_vocab
 
 PROP = "C03"
-TIMEOUT_MS = {"quick": 10000, "thorough": 30000}
+TIMEOUT_MS = {"quick": 5000, "thorough": 30000}
 
 
 def xyz_queries(nodes):
@@ -124,7 +124,7 @@ def jobs_for(t):
             if len(g.nodes) <= 4:
                 jobs.append((g, "diag", TIMEOUT_MS[t]))
         for i, g in enumerate(family(4, labellings=("fwd",), n_min=4)):
-            if i % 16 == seed() % 16:
+            if i % 32 == seed() % 32:
                 jobs.append((g, "diag", TIMEOUT_MS[t]))
     else:
         for g in family(3):
@@ -145,7 +145,7 @@ def run() -> int:
         "returned Expression -> z3 polynomial terms (vf/sem/denote.py)",
     ]
     rep.bounds = {
-        "graphs": "quick: every ADMG <=3 nodes (two labellings) + curated 4-node graphs + 1/16 of the 4-node classes; thorough: every ADMG <=4 nodes under two labellings + curated list incl. 5-node graphs",
+        "graphs": "quick: every ADMG <=3 nodes (two labellings) + curated 4-node graphs + 1/32 of the 4-node classes; thorough: every ADMG <=4 nodes under two labellings + curated list incl. 5-node graphs",
         "queries": "all pairwise disjoint (X, Y, Z), Y and Z non-empty, X possibly empty",
         "models": "all positive binary SCMs, one binary latent per bidirected edge",
         "value_assignments": "<=3 nodes: all; larger: the all-equal assignments",
